@@ -68,6 +68,9 @@ func dirUses(dus []*ggql.DirectiveUse) []model.DirUse {
 		u := model.DirUse{Name: "<nil>"}
 		if du.Directive != nil {
 			u.Name = du.Directive.Name()
+			if _, isRef := du.Directive.(*ggql.Ref); isRef {
+				u.Name += " (UNRESOLVED reference: the use never got its directive)"
+			}
 		}
 		names := make([]string, 0, len(du.Args))
 		for k := range du.Args {
